@@ -79,3 +79,28 @@ func TestFindSeed(t *testing.T) {
 		fmt.Println("no failing seed")
 	})
 }
+
+func TestProbeAfterError(t *testing.T) {
+	if os.Getenv("C14_PROBE2") == "" {
+		t.Skip()
+	}
+	vm := newVM("000102030405060708090a0b0c0d0e0f", enumVars)
+	fmt.Println(vm.Run("(2d6+1)d(d4+1)+x"), vm.GetDetailText())
+	fmt.Println("err:", vm.Run("d0"))
+	func() {
+		defer func() { fmt.Println("recovered:", recover()) }()
+		fmt.Printf("text after failed run: %q spans=%d\n", vm.GetDetailText(), len(vm.DetailSpans))
+	}()
+	vm2 := newVM("000102030405060708090a0b0c0d0e0f", enumVars)
+	fmt.Println(vm2.Run("(2d6+1)d(d4+1)+x"))
+	fmt.Println("err:", vm2.Run("d0"))
+	func() {
+		defer func() { fmt.Println("recovered:", recover()) }()
+		fmt.Printf("text after failed run (not asked before): %q\n", vm2.GetDetailText())
+	}()
+	fmt.Println("err:", vm2.Run("(2d6"))
+	func() {
+		defer func() { fmt.Println("recovered:", recover()) }()
+		fmt.Printf("text after parse error: %q\n", vm2.GetDetailText())
+	}()
+}
